@@ -1,6 +1,7 @@
 // C11 — RadioTap fields can be set in any order and read back.
 // BFS to fixpoint over (real RadioTap object, copied per state) x (model: field -> last written value).
-// Alphabet: the 14 field setters of the property with value v1 (and v2 for the fields in `v2mask`).
+// Alphabet: the 14 field setters of the property with value v1 (and v2 for the fields in `v2mask`); flags, whose value
+// steers serializer and parser (FCS trailer, FAILED_FCS), with one value per steering-bit combination in both tiers.
 // Roots: default-constructed header, parsed header with an empty present word, parsed header with a
 // mid-subset of fields; every root carries a 10-byte 802.11 ACK frame as inner PDU.
 // Oracle on every transition: options_payload_ == canonical layout computed by the writer below (own
@@ -30,12 +31,17 @@ enum { K_TSFT, K_FLAGS, K_RATE, K_CHANNEL, K_DBM_SIGNAL, K_DBM_NOISE, K_SIGQ, K_
 
 // Raw little-endian images of the values (low `size` bytes are the wire bytes of the field).
 //   [0] = value carried by parsed roots, [1] = v1, [2] = v2.  Bytes are pairwise different inside a value set so that
-//   a shifted or swapped field cannot go unnoticed.  FLAGS: v1 has the FCS bit (serialization appends a trailer, the
-//   parser strips it), v2 has not; FAILED_FCS (0x40) is never used because RadioTap(buffer) rejects such frames by design.
+//   a shifted or swapped field cannot go unnoticed.
+//   FLAGS is the one field whose VALUE steers serializer and parser (FCS 0x10: serialize() appends a 4-byte FCS trailer behind
+//   the inner frame and RadioTap(buffer) strips it; FAILED_FCS 0x40 together with FCS: RadioTap(buffer) rejects the frame, which
+//   is documented behaviour of the parser).  It therefore gets one value per steering-bit combination in BOTH tiers:
+//   v1 = 0x12 (FCS), v2 = 0x0a (plain), v3 = 0x42 (FAILED_FCS without FCS: a legal value that must round-trip), thorough adds
+//   v4 = 0xc5 (FAILED_FCS with other bits, no FCS).  FCS|FAILED_FCS stays out (documented rejection).
 //   signal_quality: the setter's parameter is uint8_t, so only values <= 0xff can be requested.
-static const uint64_t VAL[NF][3] = {
+static const int FLAGS_VALUES_QUICK = 3, FLAGS_VALUES_THOROUGH = 4;
+static const uint64_t VAL[NF][5] = {
     {0xa1a2a3a4a5a6a7a8ULL, 0x0102030405060708ULL, 0xf1f2f3f4f5f6f7f8ULL},  // tsft
-    {0x02, 0x12, 0x0a},                                                     // flags
+    {0x02, 0x12, 0x0a, 0x42, 0xc5},                                         // flags
     {0x6c, 0x16, 0x0b},                                                     // rate
     {0x04801388ULL, 0x00c00985ULL, 0x0140143cULL},                          // channel: freq | type << 16
     {0xb5, 0xd3, 0xc4},                                                     // dbm_signal (int8)
@@ -187,7 +193,13 @@ static std::string check(S& s, const Op& op) {
     // 4. serialization: length field covers exactly the header, header image canonical, inner frame behind it
     Bytes w = s.rt.serialize();
     size_t hdr = 4 + want.size();
-    if (w.size() < hdr + sizeof ACK) return "radiotap:serialize:short|" + str(w.size()) + " bytes for a " + str(hdr) + "-byte header + 10-byte frame";
+    // FLAGS steers the trailer: with the FCS bit the serializer appends a 4-byte FCS behind the inner frame, without it nothing
+    const bool fcs = (m.mask >> K_FLAGS & 1) && (m.val[K_FLAGS] & 0x10);
+    const size_t trailer = fcs ? 4 : 0;
+    if (w.size() != hdr + sizeof ACK + trailer)
+        return std::string("radiotap:serialize:size|") + str(w.size()) + " bytes for a " + str(hdr) + "-byte header + 10-byte frame + " + str(trailer) + "-byte FCS trailer (flags " +
+               ((m.mask >> K_FLAGS & 1) ? hx(m.val[K_FLAGS]) : std::string("absent")) + ")";
+    if (s.rt.trailer_size() != trailer) return "radiotap:serialize:trailer_size|trailer_size()=" + str(s.rt.trailer_size()) + " model " + str(trailer);
     size_t it_len = w[2] | w[3] << 8;
     if (it_len != hdr) return "radiotap:serialize:length-field|it_len=" + str(it_len) + " header bytes " + str(hdr);
     if (s.rt.header_size() != hdr) return "radiotap:serialize:header_size|header_size()=" + str(s.rt.header_size()) + " header bytes " + str(hdr);
@@ -212,7 +224,8 @@ static std::string check(S& s, const Op& op) {
             }
         }
     } catch (exception_base& ex) {
-        err = std::string("radiotap:reparse:rejected|RadioTap(serialize()) threw ") + typeid(ex).name() + " on " + hex(w);
+        err = std::string("radiotap:reparse:rejected|RadioTap(serialize()) threw ") + typeid(ex).name() + " (flags " +
+              ((m.mask >> K_FLAGS & 1) ? hx(m.val[K_FLAGS]) : std::string("absent")) + ") on " + hex(w);
     }
     delete exact;
     ++g_reparses;
@@ -258,11 +271,13 @@ static bool g_stop = false, g_replay_mode = false;
 static uint64_t g_last_idx = (uint64_t)-1, g_next_idx = 0;
 static const size_t CRASH_CAP = 4;
 
-static void configure(Explorer<S, Op>& ex, int root, uint32_t v2mask) {
-    for (int vi = 1; vi <= 2; ++vi)
-        for (int k = 0; k < NF; ++k)
-            if (vi == 1 || (v2mask >> k & 1)) ex.alphabet.push_back(Op{k, vi});
-    ex.context = std::string("root=") + ROOTS[root] + " v2mask=" + hx(v2mask);
+static void configure(Explorer<S, Op>& ex, int root, uint32_t v2mask, int flags_values) {
+    for (int vi = 1; vi <= FLAGS_VALUES_THOROUGH; ++vi)
+        for (int k = 0; k < NF; ++k) {
+            int nv = k == K_FLAGS ? flags_values : 1 + (v2mask >> k & 1);
+            if (vi <= nv) ex.alphabet.push_back(Op{k, vi});
+        }
+    ex.context = std::string("root=") + ROOTS[root] + " v2mask=" + hx(v2mask) + " nflags=" + str(flags_values);
     ex.op_str = op_str;
     ex.init = [root]() { return make_root(root); };
     ex.canon = [](const S& s) {
@@ -311,19 +326,22 @@ static void configure(Explorer<S, Op>& ex, int root, uint32_t v2mask) {
     };
 }
 
-// thorough tier: every field gets a second value, five (four) at a time: three BFS runs per root
-static const uint32_t V2_SETS[3] = {
-    1u << K_TSFT | 1u << K_FLAGS | 1u << K_CHANNEL | 1u << K_SIGQ | 1u << K_XCHANNEL,
-    1u << K_RATE | 1u << K_DBM_SIGNAL | 1u << K_RX_FLAGS | 1u << K_TX_FLAGS | 1u << K_MCS,
-    1u << K_DBM_NOISE | 1u << K_ANTENNA | 1u << K_DB_SIGNAL | 1u << K_DATA_RETRIES};
+// thorough tier: every other field gets a second value, four (three) at a time: four BFS runs per root
+static const int NSETS = 4;
+static const uint32_t V2_SETS[NSETS] = {
+    1u << K_TSFT | 1u << K_CHANNEL | 1u << K_SIGQ | 1u << K_XCHANNEL,
+    1u << K_RATE | 1u << K_DBM_SIGNAL | 1u << K_RX_FLAGS,
+    1u << K_TX_FLAGS | 1u << K_MCS | 1u << K_DBM_NOISE,
+    1u << K_ANTENNA | 1u << K_DB_SIGNAL | 1u << K_DATA_RETRIES};
 
 int main(int argc, char** argv) {
-    return run_main(argc, argv, NROOTS, 3 * NROOTS,
+    return run_main(argc, argv, NROOTS, NSETS * NROOTS,
         [](int job) {
             uint32_t v2 = A.thorough() ? V2_SETS[job / NROOTS] : 0;
+            int nflags = A.thorough() ? FLAGS_VALUES_THOROUGH : FLAGS_VALUES_QUICK;
             job %= NROOTS;
             Explorer<S, Op> ex;
-            configure(ex, job, v2);
+            configure(ex, job, v2, nflags);
             bool ok = ex.run();
             if (ok && !g_stop && A.skip_list.empty()) R.count("roots_to_fixpoint");
             R.count("roots");
@@ -335,7 +353,7 @@ int main(int argc, char** argv) {
             int root = 0;
             for (int i = 0; i < NROOTS; ++i) if (kv["root"] == ROOTS[i]) root = i;
             Explorer<S, Op> ex;
-            configure(ex, root, (uint32_t)strtoul(kv["v2mask"].c_str(), 0, 16) | 0x3fff);
+            configure(ex, root, 0x3fff, FLAGS_VALUES_THOROUGH);   // every op of either tier is replayable
             g_replay_mode = true;
             std::string err = ex.replay(kv["ops"]);
             if (!err.empty()) { printf("violation reproduced: %s\n", err.c_str()); return 1; }
